@@ -34,6 +34,11 @@ def scan_events(text):
     return sc
 
 
+# stems of the additional files: they end in characters of ".i" / contain the suffix inside (a stem is what is left
+# when the SUFFIX is removed, not when its characters are stripped)
+STEMS = ["multi", "imu_pi", "navi"]
+
+
 def split_job(item):
     cid, origin, info, seed = item
     rng = random.Random(seed)
@@ -42,7 +47,7 @@ def split_job(item):
     for sp in info["splits"]:
         parts = sp["parts"]
         texts = [layout.render(p).rstrip("\n") + rng.choice(ENDINGS) for p in parts]
-        stems = ["part%d" % (i + 2) for i in range(len(parts) - 1)]
+        stems = STEMS[:len(parts) - 1]
         tmp = tempfile.mkdtemp(prefix="c16_")
         try:
             srcs = []
@@ -230,7 +235,7 @@ def main():
         fd, path = tempfile.mkstemp(prefix="splits_", suffix=".json")
         try:
             with os.fdopen(fd, "w") as f:
-                json.dump([{"id": c["id"], "cst": c["cst"], "stems": ["part2", "part3", "part4"], "name": "mod",
+                json.dump([{"id": c["id"], "cst": c["cst"], "stems": STEMS, "name": "mod",
                             "top": tops[c["id"]]} for c in ch], f)
             return tlc.run("SplitTrace", "SplitTrace.cfg", env={"TRACE_FILE": path}, timeout=1800)
         finally:
